@@ -41,6 +41,9 @@ type params struct {
 	Seed    int64   `json:"seed"`
 	// Fault in (0,1]: one store call of the squash (at that fraction of its calls, counted by a dry run on a clone) fails
 	Fault float64 `json:"fault_at_fraction,omitempty"`
+	// Batch > 0: squash lists with core.BatchSize(Batch) (the CLI's --batch-size); pages of 1..4 keys put leftovers
+	// of interrupted uploads alone on a page in the middle of the history
+	Batch int `json:"batch_size,omitempty"`
 }
 
 var semverLabels = []string{"1.2.3", "v1.2.3", "2.0.0", "v0.1.0", "10.20.30"}
@@ -73,6 +76,10 @@ func gen10(seed int64, tier string) []drv.Case {
 		}
 		for j := 0; j < nLeft; j++ {
 			e := event{Kind: "crashed-upload", Files: 1 + r.Intn(3), CrashK: 1 + r.Intn(12), After: r.Intn(2) == 0}
+			if r.Intn(2) == 0 {
+				// died just before its descriptor: file list(s) under the bundle's prefix, no bundle.yaml
+				e.Kind = "descriptor-less-upload"
+			}
 			// newest, oldest or middle position
 			pos := []int{len(evs), 0, len(evs) / 2}[r.Intn(3)]
 			evs = append(evs[:pos], append([]event{e}, evs[pos:]...)...)
@@ -87,6 +94,10 @@ func gen10(seed int64, tier string) []drv.Case {
 		if i%4 == 2 && nb > 1 {
 			p.Fault, p.Tags = r.Float64(), []string{"all", "semver"}[r.Intn(2)]
 			cls = "squash-under-a-store-fault"
+		}
+		if r.Intn(3) == 0 {
+			p.Batch = []int{1, 1, 1, 2, 3, 4}[r.Intn(6)]
+			cls += "|small-pages"
 		}
 		cs = append(cs, drv.Case{ID: fmt.Sprintf("%s-%d", cls, i), Class: cls, Params: drv.MustJSON(p)})
 	}
@@ -143,8 +154,12 @@ func run10(c drv.Case, res *drv.Result) {
 				must(env.SetLabel(nil, "r", l, id))
 				labels[l] = id
 			}
-		case "crashed-upload", "torn-descriptor-upload":
+		case "crashed-upload", "torn-descriptor-upload", "descriptor-less-upload":
 			a := memstore.NewActor(fmt.Sprint("victim", i)).CrashWhen(func(c memstore.Call) bool { return true }, e.CrashK, e.After)
+			if e.Kind == "descriptor-less-upload" {
+				a = memstore.NewActor(fmt.Sprint("victim", i)).CrashWhen(func(c memstore.Call) bool { return strings.HasSuffix(c.Key, "/bundle.yaml") }, 1, false)
+				res.Stat("leftovers_with_file_list_and_no_descriptor", 1)
+			}
 			if e.Kind == "torn-descriptor-upload" {
 				// the client dies while writing its descriptor on a store without atomic writes: an empty bundle.yaml stays
 				a = memstore.NewActor(fmt.Sprint("victim", i)).CrashWhen(func(c memstore.Call) bool { return strings.HasSuffix(c.Key, "/bundle.yaml") }, 1, true).Torn()
@@ -214,6 +229,10 @@ func run10(c drv.Case, res *drv.Result) {
 		opts = append(opts, core.WithRetainTags(true))
 	case "semver":
 		opts = append(opts, core.WithRetainSemverTags(true))
+	}
+	if p.Batch > 0 {
+		opts = append(opts, core.BatchSize(p.Batch))
+		res.Seen("batch_size", fmt.Sprint(p.Batch))
 	}
 	nObjects := len(env.Meta.RawKeys()) + len(env.VMeta.RawKeys())
 	actor := memstore.NewActor("squasher").SetBudget(50*nObjects + 10000)
